@@ -138,6 +138,40 @@ Fixpoint while_loop {S R} (fuel : nat) (s : S) (c : S -> res bool)
       end
   end.
 
+(* ---- x-mode: an exception carries the state reached when it was raised, so that handlers (and callers) see the
+        effects of the part of a body that ran: for code that drives an external mutable object (a DB session) ---- *)
+Inductive xres (S A : Type) : Type :=
+| XOk (a : A)
+| XRaise (e : exn) (s : S).
+Arguments XOk {S A} a.
+Arguments XRaise {S A} e s.
+
+Definition xbind {S A B} (m : xres S A) (f : A -> xres S B) : xres S B :=
+  match m with XOk a => f a | XRaise e s => XRaise e s end.
+
+(* a computation that may raise but does not touch the state *)
+Definition xlift {S A} (s : S) (m : res A) : xres S A :=
+  match m with Ok a => XOk a | Raise e => XRaise e s end.
+
+Definition xseqc {S R} (m : xres S (ctl S R)) (k : S -> xres S (ctl S R)) : xres S (ctl S R) :=
+  match m with
+  | XOk (Normal s) => k s
+  | other => other
+  end.
+
+Fixpoint xfor_each {X S R} (xs : list X) (s : S)
+         (body : X -> S -> xres S (ctl S R)) : xres S (ctl S R) :=
+  match xs with
+  | [] => XOk (Normal s)
+  | x :: r =>
+      match body x s with
+      | XRaise e s' => XRaise e s'
+      | XOk (Ret v) => XOk (Ret v)
+      | XOk (Brk s') => XOk (Normal s')
+      | XOk (Normal s') | XOk (Cont s') => xfor_each r s' body
+      end
+  end.
+
 (* "first x in xs with c x" where c may raise: models  for x in xs: if c x: return ... *)
 Fixpoint existsM {X} (c : X -> res bool) (xs : list X) : res bool :=
   match xs with
